@@ -2853,11 +2853,32 @@ def groupby_reduce(
             preferred_method = "map-reduce"
             chunks_cohorts = {}
 
+        requested_method = method
         method = _choose_method(method, preferred_method, agg, by_, nax)
 
         if method == "cohorts" and not chunks_cohorts:
             # none of the requested labels occurs: there is nothing to split into cohorts
             method = "map-reduce"
+
+        if (
+            requested_method is None
+            and reindex.blockwise is True
+            and method in ("blockwise", "cohorts")
+            and not any_by_dask
+        ):
+            # reindex=True was requested explicitly: it is only meaningful for map-reduce, so honour it
+            # rather than the planner's preference (blockwise/cohorts silently mishandle it)
+            method = "map-reduce"
+
+        if (
+            method == "blockwise"
+            and any_by_dask
+            and not all(nchunks == 1 for nchunks in array.numblocks[-nax:])
+        ):
+            raise NotImplementedError(
+                "method='blockwise' with dask labels is only supported when the reduced axes have a single block: "
+                "the labels present in each block are not known when the graph is built."
+            )
 
         if agg.chunk[0] is None and method != "blockwise":
             raise NotImplementedError(
